@@ -352,11 +352,13 @@ Proof.
   - destruct Hw2 as [Rw [S2 [M3 M4]]]. vdone.
 Qed.
 
-Lemma VF_render_for body x len base : SF body -> VF body -> sv x = true -> ov base = true ->
+Lemma VF_render_for body x len base : SF body -> VF body -> sv x = true ->
+  (forall s, rsafe (base s)) -> (forall s b, rtv (fr s) = true -> base s = Ok b -> ov b = true) ->
   forall vs i s k, forallb vv vs = true -> okst s -> rtv (fr s) = true -> vpost k (render_for_loop body x len base vs i s k).
 Proof.
-  intros Sb Hb Hx Hbase; induction vs as [|v vs IH]; intros i s k Hv W R; [apply vpost_here; auto; discriminate|]. cbn [render_for_loop].
+  intros Sb Hb Hx Hsafe Hov; induction vs as [|v vs IH]; intros i s k Hv W R; [apply vpost_here; auto; discriminate|]. cbn [render_for_loop].
   cbn [forallb] in Hv. apply andb_true_iff in Hv as [Hv1 Hvs].
+  apply vpost_of_res; [apply Hsafe|exact R|]. intros b0 Eb0. pose proof (Hov s b0 R Eb0) as Hbase.
   match goal with |- context [body (push_sandbox ?a s) k] =>
     assert (Ra : rtv (fr (push_sandbox a s)) = true)
       by (apply rtv_push_sandbox; [apply upsert_ov; auto; apply upsert_ov; auto; reflexivity|exact R]);
@@ -576,8 +578,8 @@ Proof.
       destruct arr as [|v0 vs0]; [apply vpost_here; auto; discriminate|].
       apply vpost_of_res; [apply eval_args_safe|exact R|]. intros ar Ear.
       apply vpost_of_res; [exact Hl1|exact R|]. intros body Eb. destruct (Hl2 _ Eb) as [Tw Tv].
-      apply VF_render_for; [apply rec_SF; exact Tw|apply rec_VF; assumption|exact Hx| |exact Harr|exact W|exact R].
-      match goal with Hargs : args_ok _ = true |- _ => exact (eval_args_ov _ _ [] _ Hargs R eq_refl Ear) end.
+      apply VF_render_for; [apply rec_SF; exact Tw|apply rec_VF; assumption|exact Hx|intro s0; apply eval_args_safe| |exact Harr|exact W|exact R].
+      intros s0 b0 R0 E0. match goal with Hargs : args_ok _ = true |- _ => exact (eval_args_ov _ _ [] _ Hargs R0 eq_refl E0) end.
     + apply vpost_of_res; [apply eval_args_safe|exact R|]. intros ar Ear.
       apply vpost_of_res; [exact Hl1|exact R|]. intros body Eb. destruct (Hl2 _ Eb) as [Tw Tv].
       assert (Ra : rtv (fr (push_sandbox ar st)) = true) by (apply rtv_push_sandbox; [match goal with Hargs : args_ok _ = true |- _ => exact (eval_args_ov _ _ [] _ Hargs R eq_refl Ear) end|exact R]).
